@@ -400,8 +400,28 @@ def s6_local(ctx, rep):
             "the recorded metric list is assembled from something else than this poll's retrieve(...) result (merged with a cache, filtered)")
 
 
+def s1_flush(ctx, rep, clause="S1"):
+    """_report_logger: the report line is printed and THEN the stream is flushed, on every path - a block-buffered stdout (the local
+    backend runs scripts with stdout redirected to a file) otherwise holds the last report back until the next one, for ever if the
+    script is killed"""
+    P = ctx.P
+    w = P.func("syne_tune.report._report_logger")
+    cfg = cfg_of(w)
+    prints = [n.id for n in cfg.nodes for x in cfg.node_walk(n.id) if isinstance(x, ast.Call) and isinstance(x.func, ast.Name) and x.func.id == "print"]
+    flushes = {n.id for n in cfg.nodes for x in cfg.node_walk(n.id) if isinstance(x, ast.Call) and fn_name(x) == "flush"} | \
+              {n.id for n in cfg.nodes for x in cfg.node_walk(n.id) if isinstance(x, ast.Call) and isinstance(x.func, ast.Name) and x.func.id == "print"
+               and any(k_.arg == "flush" and isinstance(k_.value, ast.Constant) and k_.value.value is True for k_ in x.keywords)}
+    if not prints:
+        raise AnchorError("_report_logger: print(...) not found")
+    ok = all(pn in flushes or cfg.path([s_ for s_, l_ in cfg.succ[pn]], cfg.exit, deleted=flushes, skip_labels=("exc",)) is None for pn in prints)
+    rep.put(ok, clause, "must_follow", "_report_logger: the printed report is flushed (print, then flush)", w, None, "",
+            "the report line is printed after the flush (or never flushed): with a buffered stdout the tuner sees every report one report late and "
+            "never sees the last one of a script that is killed or exits hard")
+
+
 def run(ctx, rep, tier="quick"):
     s6_local(ctx, rep)
+    s1_flush(ctx, rep)
     s1(ctx, rep)
     s2(ctx, rep)
     s3(ctx, rep)
